@@ -276,7 +276,7 @@ fn main() {
             nontrivial += 1;
         }
         if let Some((step, op, r, m)) = first_diff(&reals[i], model) {
-            let small = shrink(&args.driver, script, erase_of[i]);
+            let small = if divergences.len() < 3 { shrink(&args.driver, script, erase_of[i]) } else { script.clone() };
             let real_s = world::run_script(&small, erase_of[i]);
             let model_s = run_driver(&args.driver, &[("min".into(), small.clone())]);
             let d = first_diff(&real_s, model_s.first().map(|v| v.as_slice()).unwrap_or(&[]));
